@@ -79,6 +79,16 @@ def run(ctx):
                              and _col_written(s3.targets[0]) == "asset" and au.base_name(s3.targets[0]) == s2.targets[0].id]
                     if later:
                         merged_into.add(s2.targets[0].id)
+            # ... or collected in a list that is concatenated into an owned frame:  lst.append(frame) ... target = pd.concat(lst ...)
+            lists = {au.base_name(x.func) for s2 in au.walk_stmts(fn.body) for x in au.walk_own(s2)
+                     if isinstance(x, ast.Call) and au.method_name(x) == "append" and isinstance(x.func, ast.Attribute) and frame in au.names_in(x)}
+            for s2 in au.walk_stmts(fn.body):
+                if isinstance(s2, ast.Assign) and isinstance(s2.targets[0], ast.Name) and (au.names_in(s2.value) & lists) and any(
+                        isinstance(x, ast.Call) and au.method_name(x) == "concat" for x in au.walk_local(s2.value)):
+                    later = [s3 for s3 in au.walk_stmts(fn.body) if s3.lineno > s2.lineno and isinstance(s3, ast.Assign)
+                             and _col_written(s3.targets[0]) == "asset" and au.base_name(s3.targets[0]) == s2.targets[0].id]
+                    if later:
+                        merged_into.add(s2.targets[0].id)
             n += 1
             ok = frame in frames_with_asset or bool(merged_into)
             ctx.ob("C04.b", fn, "frame %s gets an owner" % frame, ok,
